@@ -8,6 +8,11 @@
   "Every way of invoking" includes invoking a vault operation from INSIDE a flash-loan callback of the
   same vault (the vault's loan counter is non-zero at that moment): `stepInLoan` / `Op.inLoan`, theorems
   `disabled_rejected_in_callback`, `inloan_*`.
+
+  Histories include MIGRATIONS (`Op.migrate`: the contract's `migrate` entry point called by its wasm admin,
+  refused or accepted, from any stored version): `Reachable` quantifies over them like over every other
+  operation, so every theorem below holds after any number of migrations; `migrate_*`,
+  `paused_until_reenabled`, `disabled_rejected_after_migrations`, `migrations_are_invisible` say it outright.
 -/
 import WW.Proofs.Toggles
 namespace WW.C17
@@ -264,7 +269,130 @@ theorem inloan_state_unchanged (base : Path → Res Unit) (s s' : St) (outer inn
   · cases h
   · cases h
 
+/-! ### migrations -/
+
+/-- **a migration changes no switch** (and nothing else of the modelled state): accepted — the state after
+    it is the state before it, whoever the admin is migrating from whichever version and whatever the
+    version-specific storage migration does. -/
+theorem migrate_leaves_switches (base : Path → Res Unit) (s s' : St) (a : Bool) (st cr : Ver) (body : Res Unit)
+    (h : step base s (.migrate a st cr body) = .ok s') : s' = s :=
+  step_migrate_state base s s' a st cr body h
+
+/-- … refused or accepted: the history goes on from the same state -/
+theorem migrate_never_changes_state (base : Path → Res Unit) (s : St) (a : Bool) (st cr : Ver) (body : Res Unit) :
+    reach base s [.migrate a st cr body] = s :=
+  reach_not_ownerWrite base _ s (by intro op h; simp at h; subst h; rfl)
+
+/-- **refused unless the stored version is lower** (and unless the wasm admin sends it) -/
+theorem migrate_refused_not_lower (base : Path → Res Unit) (s : St) (a : Bool) (st cr : Ver) (body : Res Unit)
+    (h : a = false ∨ st.lt cr = false) :
+    step base s (.migrate a st cr body) = .err := by
+  rcases h with h | h
+  · simp [step, migrateRes, h]
+  · by_cases ha : a = false <;> simp [step, migrateRes, ha, h]
+
+/-- an accepted migration is exactly: admin, lower stored version, storage migration went through -/
+theorem migrate_accepted_iff (base : Path → Res Unit) (s : St) (a : Bool) (st cr : Ver) (body : Res Unit) :
+    step base s (.migrate a st cr body) = .ok s ↔ (a = true ∧ st.lt cr = true ∧ body = .ok ()) := by
+  constructor
+  · intro h
+    by_cases ha : a = false
+    · simp [step, migrateRes, ha] at h
+    · by_cases hl : st.lt cr = false
+      · simp [step, migrateRes, ha, hl] at h
+      · cases body <;> simp_all [step, migrateRes]
+  · rintro ⟨ha, hl, hb⟩
+    simp [step, migrateRes, ha, hl, hb]
+
+/-- the vault's `migrate` saves `LOAN_COUNTER = 0` before anything else: on a state between transactions
+    that is the identity (so `Op.migrate` need not mention the counter) -/
+theorem migrate_counter_reset_is_noop {base : Path → Res Unit} {s : St} (hs : Reachable base s) :
+    { s with loans := 0 } = s := by
+  have := reachable_loans hs
+  cases s
+  simp_all
+
+/-- a state reached from a reachable state is reachable -/
+theorem reachable_reach {base : Path → Res Unit} {s : St} (hs : Reachable base s) (ops : List Op) :
+    Reachable base (reach base s ops) := by
+  obtain ⟨s₀, ops₀, h0, rfl⟩ := hs
+  refine ⟨s₀, ops₀ ++ ops, h0, ?_⟩
+  have key : ∀ (l : List Op) (t : St), reach base t (l ++ ops) = reach base (reach base t l) ops := by
+    intro l
+    induction l with
+    | nil => intro t; rfl
+    | cons op l ih =>
+      intro t
+      simp only [List.cons_append, reach]
+      split <;> exact ih _
+  exact (key ops₀ s₀).symm
+
+/-- **only the owner's switch-carrying `UpdateConfig` moves a switch**: any history of migrations (refused
+    or accepted), calls, loans with inner messages, `UpdateConfig`s that name no switch and `UpdateConfig`s
+    of strangers leaves the state exactly as it was. -/
+theorem switches_change_only_by_owner_write (base : Path → Res Unit) (s : St) (ops : List Op)
+    (hw : ∀ op ∈ ops, op.ownerWrite = false) : reach base s ops = s :=
+  reach_not_ownerWrite base ops s hw
+
+/-- **a disabled operation stays rejected until the operator re-enables it**: switch off in a reachable
+    state, then ANY history without an owner's switch write — any number of migrations from any versions
+    included — and every entry path naming the switch is still rejected, at any value of the loan counter
+    (outside and inside a flash-loan callback). -/
+theorem paused_until_reenabled (base : Path → Res Unit) (s : St) (hs : Reachable base s)
+    (p : Path) (sw : Switch) (hn : p.names = some sw) (hoff : s.flags.get sw = false)
+    (ops : List Op) (hw : ∀ op ∈ ops, op.ownerWrite = false) (n : Nat) :
+    stepPath base { reach base s ops with loans := n } p = .err := by
+  rw [reach_not_ownerWrite base ops s hw]
+  exact disabled_rejected_in_callback base s hs n p sw hn hoff
+
+/-- the special case asked for by name: after any number of migrations a disabled switch still blocks its
+    operation on every path -/
+theorem disabled_rejected_after_migrations (base : Path → Res Unit) (s : St) (hs : Reachable base s)
+    (p : Path) (sw : Switch) (hn : p.names = some sw) (hoff : s.flags.get sw = false)
+    (ms : List Op) (hm : ∀ op ∈ ms, op.isMigrate = true) :
+    reach base s ms = s ∧ stepPath base (reach base s ms) p = .err ∧
+      ∀ n, stepPath base { reach base s ms with loans := n } p = .err := by
+  have hw : ∀ op ∈ ms, op.ownerWrite = false := fun op h => isMigrate_not_ownerWrite op (hm op h)
+  have hr := reach_not_ownerWrite base ms s hw
+  refine ⟨hr, ?_, paused_until_reenabled base s hs p sw hn hoff ms hw⟩
+  rw [hr]
+  exact disabled_rejected base s hs p sw hn hoff
+
+/-- **migrations are invisible**: strike every migration out of a history (wherever it stood: before the
+    first config write, between a partial write and the next, between operations) — the state reached, and
+    with it the verdict on every later call and loan, is the same. -/
+theorem migrations_are_invisible (base : Path → Res Unit) (s : St) (ops : List Op) :
+    reach base s (ops.filter (fun op => !op.isMigrate)) = reach base s ops :=
+  reach_filter_migrate base ops s
+
+/-- a loan with a paused inner operation after migrations: still refused (plain message: the whole loan) -/
+theorem inloan_inner_disabled_after_migrations (base : Path → Res Unit) (s : St) (hs : Reachable base s)
+    (outer inner : Path) (lb : LoanBase) (sw : Switch) (hn : inner.names = some sw)
+    (hoff : s.flags.get sw = false) (ms : List Op) (hm : ∀ op ∈ ms, op.isMigrate = true) :
+    stepInLoan (reach base s ms) outer inner .propagate lb = ⟨.err, none⟩ ∧
+    (stepInLoan (reach base s ms) outer inner .catch lb).inner ≠ some true := by
+  have hw : ∀ op ∈ ms, op.ownerWrite = false := fun op h => isMigrate_not_ownerWrite op (hm op h)
+  rw [reach_not_ownerWrite base ms s hw]
+  exact ⟨(inloan_inner_disabled_propagate base s hs outer inner lb sw hn hoff).1,
+    (inloan_inner_disabled_catch base s hs outer inner lb lb rfl sw hn hoff).1⟩
+
 /-! ### non-vacuity and concrete behaviour -/
+
+/-- the seeded shape C17-I: swaps paused on a 3pool, the pool is migrated 1.2.4 → 1.2.5, then a second time
+    from an even older version, a refused migration (same version) in between — every swap path still errs -/
+example :
+    let base : Path → Res Unit := fun _ => .ok ()
+    let s := reach base ⟨Flags.allOn, true, 0⟩
+      [.setPartial true none none (some false), .migrate true ⟨1, 2, 4⟩ ⟨1, 2, 5⟩ (.ok ()),
+       .migrate true ⟨1, 2, 5⟩ ⟨1, 2, 5⟩ (.ok ()), .migrate true ⟨0, 9, 12⟩ ⟨1, 2, 5⟩ (.ok ())]
+    s.flags = ⟨true, true, false⟩ ∧
+    [Path.trioSwapNative, .trioSwapCw20Hook, .trioSwapDirectCw20].all (fun p => stepPath base s p == .err) ∧
+    stepPath base s .trioProvide = .ok () := by decide
+
+/-- semver order on the versions the handlers compare -/
+example : Ver.lt ⟨1, 2, 4⟩ ⟨1, 2, 5⟩ = true ∧ Ver.lt ⟨1, 2, 5⟩ ⟨1, 2, 5⟩ = false ∧ Ver.lt ⟨1, 3, 0⟩ ⟨1, 2, 5⟩ = false ∧
+    Ver.lt ⟨0, 9, 12⟩ ⟨1, 2, 5⟩ = true ∧ Ver.lt ⟨1, 1, 9⟩ ⟨1, 2, 5⟩ = true ∧ Ver.lt ⟨2, 0, 0⟩ ⟨1, 3, 8⟩ = false := by decide
+
 
 /-- a reachable state with withdrawals paused: every withdraw path errs, swap and deposit paths run -/
 example :
